@@ -1155,3 +1155,182 @@ Definition succ_task : task :=
 Lemma succ_witness :
   clock_expire_tasks succ_env 0 [succ_task] [] = ([], [0%N], [EvExpired 0%N; EvRemove 0%N]).
 Proof. vm_compute. reflexivity. Qed.
+
+(* ---------------------------------------------------------------- manual triggers are exempt *)
+Lemma manual_not_eligible now t : t_manual t = true -> eligible now t = false.
+Proof. intro H. unfold eligible. rewrite H. reflexivity. Qed.
+
+(* whatever the state of the target (any status that `cylc trigger` acts on, queued or not, in a
+   queue or not, held, runahead-limited, freshly spawned; queue full or not) *)
+Lemma qot_spec limited t :
+  let t' := queue_or_trigger limited t in
+  t_manual t' = true /\ t_status t' = Waiting /\ t_id t' = t_id t /\
+  t_held t' = t_held t /\ t_runahead t' = t_runahead t /\ t_expire t' = t_expire t /\
+  (forall now, eligible now t' = false).
+Proof. simpl. repeat split. Qed.
+
+Lemma step_log_ext st o st' : step st o = Some st' -> exists nw, s_log st' = s_log st ++ nw.
+Proof.
+  destruct st as [p g lg]. destruct o; simpl; intro H.
+  - destruct (clock_expire_tasks e now p g) as [[p' g'] evs]. inversion H; subst; simpl; eauto.
+  - inversion H; subst; simpl. exists []. rewrite app_nil_r; reflexivity.
+  - destruct (forallb (releasable p) released); [|discriminate]. inversion H; subst; simpl; eauto.
+  - destruct (find_task i p) as [t|]; [|discriminate].
+    destruct (t_status t); try discriminate; inversion H; subst; simpl; eauto.
+  - inversion H; subst; simpl. exists []. rewrite app_nil_r; reflexivity.
+  - inversion H; subst; simpl. exists []. rewrite app_nil_r; reflexivity.
+  - inversion H; subst; simpl. exists []. rewrite app_nil_r; reflexivity.
+  - destruct (find_task i p) as [t|]; [|discriminate].
+    destruct (msg_status_ok s && negb (t_prep t)); [|discriminate]. inversion H; subst; simpl.
+    exists []. rewrite app_nil_r; reflexivity.
+  - destruct (mem N.eqb i (ids p) || mem N.eqb i g); [discriminate|]. inversion H; subst; simpl.
+    exists []. rewrite app_nil_r; reflexivity.
+  - destruct (find_task i p) as [t|]; [|discriminate].
+    destruct (removal_spawn e t (ids p) g) as [succ evn]. inversion H; subst; simpl; eauto.
+Qed.
+
+Lemma run_log_ext os : forall st st', run st os = Some st' -> exists nw, s_log st' = s_log st ++ nw.
+Proof.
+  induction os as [|o os IH]; intros st st' H; simpl in H.
+  - inversion H; subst. exists []. rewrite app_nil_r; reflexivity.
+  - destruct (step st o) as [st1|] eqn:E; [|discriminate].
+    destruct (step_log_ext _ _ _ E) as [n1 H1]. destruct (IH _ _ H) as [n2 H2].
+    exists (n1 ++ n2). rewrite H2, H1, app_assoc. reflexivity.
+Qed.
+
+Definition manual_after (st : state) (i : N) : Prop :=
+  exists t', In t' (s_pool st) /\ t_id t' = i /\ t_manual t' = true.
+
+Lemma upd_keeps_manual i j f p t :
+  In t p -> t_id t = i -> t_manual t = true ->
+  (forall u, t_id (f u) = t_id u) -> (forall u, t_manual u = true -> t_manual (f u) = true) ->
+  exists t', In t' (upd j f p) /\ t_id t' = i /\ t_manual t' = true.
+Proof.
+  intros Ht Hid Hm Hfi Hfm. exists (if N.eqb (t_id t) j then f t else t). split.
+  - apply in_upd. exists t. auto.
+  - destruct (N.eqb (t_id t) j); [rewrite Hfi; auto | auto].
+Qed.
+
+Lemma manual_step st o st' t :
+  Good st -> step st o = Some st' -> In t (s_pool st) -> t_manual t = true ->
+  exists nw, s_log st' = s_log st ++ nw /\ ~ In (EvExpired (t_id t)) nw /\
+    ((exists s, In (EvSubmit (t_id t) s) nw) \/ In (EvRemove (t_id t)) nw \/ manual_after st' (t_id t)).
+Proof.
+  intros [Hwf Hok] H Ht Hm. destruct st as [p g lg]. simpl in *. destruct o; simpl in H.
+  - (* OPass *)
+    destruct (clock_expire_tasks e now p g) as [[p' g'] evs] eqn:E. inversion H; subst; clear H. simpl.
+    exists evs. split; [reflexivity|]. split.
+    + intro Hin. apply (pass_expires_iff _ _ _ _ _ _ _ Hwf E) in Hin.
+      destruct Hin as [u [Hu [Hid [Hmu _]]]].
+      assert (u = t) by (apply (WF_inj _ _ Hwf); auto). subst u. congruence.
+    + right; right. exists t. split; [|auto].
+      eapply pass_ineligible_kept; eauto. apply manual_not_eligible; exact Hm.
+  - (* OQueue *)
+    inversion H; subst; clear H. simpl. exists []. rewrite app_nil_r. split; [reflexivity|]. split; [tauto|].
+    right; right. apply (upd_keeps_manual (t_id t) _ _ _ t); auto.
+    + intro u. unfold queue_if_ready. destruct (_ && _); reflexivity.
+    + intros u Hu. unfold queue_if_ready. destruct (_ && _); simpl; exact Hu.
+  - (* OReleaseSubmit *)
+    destruct (forallb (releasable p) released); [|discriminate]. inversion H; subst; clear H. simpl.
+    eexists. split; [reflexivity|]. split.
+    + intro Hin. apply in_flat_map in Hin. destruct Hin as [u [_ Hu]].
+      destruct (in_pre_prep released u); simpl in Hu; [destruct Hu as [Hd|[]]; discriminate | tauto].
+    + destruct (in_pre_prep released t) eqn:Ep.
+      * left. exists (t_status t). apply in_flat_map. exists t. rewrite Ep. simpl; auto.
+      * right; right. exists t. split; [|auto]. apply in_map_iff. exists t. rewrite Ep. auto.
+  - (* OManual *)
+    destruct (find_task i p) as [t0|]; [|discriminate].
+    assert (Hres : st' = mkState (upd i (queue_or_trigger limited) p) g (lg ++ [EvManual i])).
+    { destruct (t_status t0); try discriminate; inversion H; reflexivity. }
+    subst st'. simpl. eexists. split; [reflexivity|]. split.
+    + intros [Hd|[]]. discriminate.
+    + right; right. apply (upd_keeps_manual (t_id t) _ _ _ t); auto.
+  - inversion H; subst; clear H. simpl. exists []. rewrite app_nil_r. split; [reflexivity|]. split; [tauto|].
+    right; right. apply (upd_keeps_manual (t_id t) _ _ _ t); auto.
+  - inversion H; subst; clear H. simpl. exists []. rewrite app_nil_r. split; [reflexivity|]. split; [tauto|].
+    right; right. apply (upd_keeps_manual (t_id t) _ _ _ t); auto.
+    + intro u. unfold release_held. destruct (t_held u); [|reflexivity]. destruct (_ && _); reflexivity.
+    + intros u Hu. unfold release_held. destruct (t_held u); [|exact Hu]. destruct (_ && _); simpl; exact Hu.
+  - inversion H; subst; clear H. simpl. exists []. rewrite app_nil_r. split; [reflexivity|]. split; [tauto|].
+    right; right. apply (upd_keeps_manual (t_id t) _ _ _ t); auto.
+  - destruct (find_task i p) as [t0|]; [|discriminate].
+    destruct (msg_status_ok s && negb (t_prep t0)); [|discriminate]. inversion H; subst; clear H. simpl.
+    exists []. rewrite app_nil_r. split; [reflexivity|]. split; [tauto|].
+    right; right. apply (upd_keeps_manual (t_id t) _ _ _ t); auto.
+  - destruct (mem N.eqb i (ids p) || mem N.eqb i g); [discriminate|]. inversion H; subst; clear H. simpl.
+    exists []. rewrite app_nil_r. split; [reflexivity|]. split; [tauto|].
+    right; right. exists t. split; [apply in_app_iff; auto | auto].
+  - (* ORemove *)
+    destruct (find_task i p) as [t0|]; [|discriminate].
+    destruct (removal_spawn e t0 (ids p) g) as [succ evn] eqn:Er. inversion H; subst; clear H. simpl.
+    eexists. split; [reflexivity|]. split.
+    + intro Hin. apply in_app_iff in Hin.
+      destruct (removal_spawn_spec _ _ _ _ _ _ Er) as [[_ ->]|[s [_ [-> _]]]]; simpl in Hin.
+      * destruct Hin as [[]|[Hd|[]]]. discriminate.
+      * destruct Hin as [[Hd|[]]|[Hd|[]]]; discriminate.
+    + destruct (N.eqb (t_id t) i) eqn:Ei.
+      * apply N.eqb_eq in Ei. right; left. apply in_app_iff. right. rewrite Ei. simpl; auto.
+      * right; right. exists t. split; [|auto]. apply in_app_iff. left. apply filter_In.
+        split; [exact Ht|]. rewrite Ei. reflexivity.
+Qed.
+
+Lemma split_after {A} (n1 : list A) : forall n2 pre x post,
+  n1 ++ n2 = pre ++ x :: post -> ~ In x n1 -> exists pre2, pre = n1 ++ pre2 /\ n2 = pre2 ++ x :: post.
+Proof.
+  induction n1 as [|a n1 IH]; intros n2 pre x post H Hn; simpl in *.
+  - exists pre. auto.
+  - destruct pre as [|b pre]; simpl in H.
+    + inversion H; subst. exfalso. apply Hn; auto.
+    + inversion H; subst. destruct (IH _ _ _ _ H2) as [pre2 [-> ->]]; [tauto|]. exists pre2. auto.
+Qed.
+
+(* a task that carries the manual flag does not expire before a job has been submitted for it
+   (or it has been removed), whatever else happens *)
+Theorem manual_exempt_until_submitted os : forall st st' t,
+  Good st -> run st os = Some st' -> In t (s_pool st) -> t_manual t = true ->
+  exists nw, s_log st' = s_log st ++ nw /\
+    forall pre post, nw = pre ++ EvExpired (t_id t) :: post ->
+      (exists s, In (EvSubmit (t_id t) s) pre) \/ In (EvRemove (t_id t)) pre.
+Proof.
+  induction os as [|o os IH]; intros st st' t Hg H Ht Hm; simpl in H.
+  - inversion H; subst. exists []. rewrite app_nil_r. split; [reflexivity|].
+    intros pre post Hd. destruct pre; discriminate.
+  - destruct (step st o) as [st1|] eqn:E; [|discriminate].
+    destruct (manual_step _ _ _ _ Hg E Ht Hm) as [n1 [H1 [Hne Hc]]].
+    assert (Hg1 : Good st1) by (eapply step_good; eauto).
+    destruct Hc as [Hs|[Hr|[t1 [Ht1 [Hid1 Hm1]]]]].
+    + destruct (run_log_ext _ _ _ H) as [n2 H2]. exists (n1 ++ n2).
+      split; [rewrite H2, H1, app_assoc; reflexivity|].
+      intros pre post Hsp. destruct (split_after _ _ _ _ _ Hsp Hne) as [pre2 [-> _]].
+      left. destruct Hs as [s Hs]. exists s. apply in_app_iff; auto.
+    + destruct (run_log_ext _ _ _ H) as [n2 H2]. exists (n1 ++ n2).
+      split; [rewrite H2, H1, app_assoc; reflexivity|].
+      intros pre post Hsp. destruct (split_after _ _ _ _ _ Hsp Hne) as [pre2 [-> _]].
+      right. apply in_app_iff; auto.
+    + destruct (IH _ _ _ Hg1 H Ht1 Hm1) as [n2 [H2 Hn2]]. exists (n1 ++ n2).
+      split; [rewrite H2, H1, app_assoc; reflexivity|].
+      intros pre post Hsp. destruct (split_after _ _ _ _ _ Hsp Hne) as [pre2 [-> Hn]].
+      rewrite Hid1 in Hn2. destruct (Hn2 _ _ Hn) as [[s Hs]|Hr].
+      * left. exists s. apply in_app_iff; auto.
+      * right. apply in_app_iff; auto.
+Qed.
+
+(* `cylc trigger` on a target in any state, then anything: the target does not expire before a job
+   has been submitted for it *)
+Theorem trigger_exempt st i limited st1 os st2 :
+  Good st -> step st (OManual i limited) = Some st1 -> run st1 os = Some st2 ->
+  exists nw, s_log st2 = s_log st1 ++ nw /\
+    forall pre post, nw = pre ++ EvExpired i :: post ->
+      (exists s, In (EvSubmit i s) pre) \/ In (EvRemove i) pre.
+Proof.
+  intros Hg H Hrun. assert (Hg1 : Good st1) by (eapply step_good; eauto).
+  destruct st as [p g lg]. simpl in H.
+  destruct (find_task i p) as [t0|] eqn:Ef; [|discriminate].
+  assert (Hres : st1 = mkState (upd i (queue_or_trigger limited) p) g (lg ++ [EvManual i])).
+  { destruct (t_status t0); try discriminate; inversion H; reflexivity. }
+  apply find_task_some in Ef. destruct Ef as [Ht0 Hid0].
+  assert (Hin : In (queue_or_trigger limited t0) (s_pool st1)).
+  { subst st1. simpl. apply in_upd. exists t0. split; [exact Ht0|]. rewrite Hid0, N.eqb_refl. reflexivity. }
+  destruct (manual_exempt_until_submitted os st1 st2 _ Hg1 Hrun Hin eq_refl) as [nw [Hl Hn]].
+  exists nw. split; [exact Hl|]. simpl in Hn. rewrite Hid0 in Hn. exact Hn.
+Qed.
